@@ -62,28 +62,34 @@ def generate_commands(tools_dir):
     return out
 
 
-def build_generators():
+def build_generators(variant=""):
+    """variant "": as the Makefiles build them; "uchar": with -funsigned-char, the plain-char signedness of ARM, AArch64,
+    RISC-V and PowerPC hosts - the checked-in files must be what the generators emit wherever they are built."""
     th = tree_hash()
     d = os.path.join(BUILD, "gen", th)
-    if os.path.exists(os.path.join(d, ".built")):
-        return os.path.join(d, "tools")
-    shutil.rmtree(d, ignore_errors=True)
-    os.makedirs(d)
-    shutil.copytree(os.path.join(REPO, "tools"), os.path.join(d, "tools"))
+    name = "tools" + ("-" + variant if variant else "")
+    if os.path.exists(os.path.join(d, ".built" + variant)):
+        return os.path.join(d, name)
+    if not variant:
+        shutil.rmtree(d, ignore_errors=True)
+    os.makedirs(d, exist_ok=True)
+    shutil.rmtree(os.path.join(d, name), ignore_errors=True)
+    shutil.copytree(os.path.join(REPO, "tools"), os.path.join(d, name))
     # also evict older generator builds
     for o in os.listdir(os.path.join(BUILD, "gen")):
         if o != th:
             shutil.rmtree(os.path.join(BUILD, "gen", o), ignore_errors=True)
     jobs = []
+    env = {"CFLAGS": "-funsigned-char", "CXXFLAGS": "-funsigned-char"} if variant == "uchar" else None
     needed = set(generate_subdirs(os.path.join(REPO, "tools")))   # generators that write a checked-in file
-    for sub in sorted(os.listdir(os.path.join(d, "tools"))):
-        if os.path.exists(os.path.join(d, "tools", sub, "Makefile")) and sub in needed:
-            jobs.append({"cmd": ["make", "-C", os.path.join(d, "tools", sub), "-j4", "all"], "timeout": 900, "sub": sub})
+    for sub in sorted(os.listdir(os.path.join(d, name))):
+        if os.path.exists(os.path.join(d, name, sub, "Makefile")) and sub in needed:
+            jobs.append({"cmd": ["make", "-C", os.path.join(d, name, sub), "-j4", "all"], "timeout": 900, "sub": sub, "env": env})
     for j, rc, out in run_parallel(jobs):
         if rc != 0:
             raise GenBuildError(j["sub"], out)
-    open(os.path.join(d, ".built"), "w").close()
-    return os.path.join(d, "tools")
+    open(os.path.join(d, ".built" + variant), "w").close()
+    return os.path.join(d, name)
 
 
 class GenBuildError(Exception):
@@ -93,10 +99,16 @@ class GenBuildError(Exception):
 
 
 def check_generators(ev, seen):
+    check_generators_variant(ev, seen, "")
+    check_generators_variant(ev, seen, "uchar")
+
+
+def check_generators_variant(ev, seen, variant):
+    vtag = " (generator built with -funsigned-char, as on ARM / RISC-V / PowerPC hosts)" if variant else ""
     try:
-        tdir = build_generators()
+        tdir = build_generators(variant)
     except GenBuildError as e:
-        record(ev, "generator-build:" + e.sub, {"kind": "generator-build", "sub": e.sub, "log": e.out[-3000:]}, "generator tools/%s does not build" % e.sub, seen)
+        record(ev, "generator-build:" + e.sub + variant, {"kind": "generator-build", "sub": e.sub, "log": e.out[-3000:]}, "generator tools/%s does not build%s" % (e.sub, vtag), seen)
         return
     cmds = generate_commands(tdir)      # expanded by `make -n generate` in the built copy
     ev.extra["generated_files"] = len(cmds)
@@ -109,23 +121,24 @@ def check_generators(ev, seen):
         want = open(tpath, "rb").read() if os.path.exists(tpath) else None
         ev.hashes.add(hashlib.sha256(("gen" + rel).encode()).digest()[:8])
         if p.returncode != 0:
-            record(ev, "generator-run:" + rel, {"kind": "generator", "file": rel, "argv": argv, "stderr": p.stderr.decode("utf-8", "replace")[-2000:]}, "generator for %s failed (rc=%d)" % (rel, p.returncode), seen)
+            record(ev, "generator-run:" + rel + variant, {"kind": "generator", "file": rel, "argv": argv, "stderr": p.stderr.decode("utf-8", "replace")[-2000:]}, "generator for %s failed (rc=%d)%s" % (rel, p.returncode, vtag), seen)
         elif want is None or p.stdout != want:
             # first differing line
             a, b = p.stdout.split(b"\n"), (want or b"").split(b"\n")
             ln = next((i for i in range(min(len(a), len(b))) if a[i] != b[i]), min(len(a), len(b)))
-            record(ev, "generator-diff:" + rel, {"kind": "generator", "file": rel, "argv": argv, "first_diff_line": ln + 1,
+            record(ev, "generator-diff:" + rel + variant, {"kind": "generator", "file": rel, "argv": argv, "first_diff_line": ln + 1,
                                                  "generated": a[ln].decode("utf-8", "replace") if ln < len(a) else None, "checked_in": b[ln].decode("utf-8", "replace") if ln < len(b) else None},
-                   "%s differs from the output of `%s` at line %d" % (rel, " ".join(argv), ln + 1), seen)
-        ev.classes["generator-identity"] = ev.classes.get("generator-identity", 0) + 1
+                   "%s differs from the output of `%s` at line %d%s" % (rel, " ".join(argv), ln + 1, vtag), seen)
+        ev.classes["generator-identity" + ("-" + variant if variant else "")] = ev.classes.get("generator-identity" + ("-" + variant if variant else ""), 0) + 1
     # the generator's own IR self-test (cheap extra)
     ga = os.path.join(tdir, "genavr", "genavr")
-    if os.path.exists(ga):
+    if os.path.exists(ga) and not variant:
         rc, out = sh([ga, "--test"], timeout=600)
         ev.evaluations += 1
         if rc != 0:
             record(ev, "genavr-selftest", {"kind": "generator", "file": "genavr --test", "output": out[-2000:]}, "genavr --test failed", seen)
-    ev.samples.append({"_part": "generator identity", "commands": [" ".join(a) + " > " + t for _, a, t in cmds[:4]]})
+    if not variant:
+        ev.samples.append({"_part": "generator identity", "commands": [" ".join(a) + " > " + t for _, a, t in cmds[:4]]})
 
 
 # ------------------------------------------------------------------ 2. executable stack
